@@ -19,8 +19,10 @@ ParamTys == {One(cInt), One(cStr), Un({cInt, cStr}), AnyT}
 ArgTys   == {One(cInt), One(cStr), Un({cInt, cStr}), One(cFoo)}
             \cup (IF Rich THEN {One(cBar), Un({cInt, cBar}), Un({cStr, cFoo})} ELSE {})
 
-Keys == {"k1", "k2"}
-MCKeyOrder == [k \in Keys \cup {""} |-> IF k = "k1" THEN 1 ELSE IF k = "k2" THEN 2 ELSE 0]
+\* two keyword names of which one is the other plus a digit: Go compares the names WITH their ":" suffix,
+\* and "k1:" < "k:" although "k" < "k1" - an ordering both sides of the binder must agree on
+Keys == {"k1", "k"}
+MCKeyOrder == [x \in Keys \cup {""} |-> IF x = "k1" THEN 1 ELSE IF x = "k" THEN 2 ELSE 0]
 
 Params == [kind : {"req", "opt", "rest"}, key : {""}, ty : ParamTys]
           \cup [kind : {"key", "optkey"}, key : Keys, ty : ParamTys]
